@@ -232,6 +232,11 @@ def gen_content(rng, big_ok):
         return b"\x1f\x8b" + bytes(rng.getrandbits(8) for _ in range(rng.randrange(0, 12)))
     if r < 0.36:
         return gzip.compress(b"inner payload")
+    if r < 0.44:
+        # contents that start like something a helpful layer might want to interpret or strip
+        head = rng.choice([b"\xef\xbb\xbf", b"\xff\xfe", b"\xfe\xff", b"\xff\xd8\xff", b"\x89PNG\r\n", b"{",
+                           b"\x00\x00", b"\r\n", b" ", b"\xef\xbb\xbf{}"])
+        return head + bytes(rng.getrandbits(8) for _ in range(rng.randrange(0, 20)))
     return bytes(rng.getrandbits(8) for _ in range(rng.randrange(1, 40)))
 
 
